@@ -185,3 +185,42 @@ Proof.
     cbn [obind fold_left app]. rewrite filter_sub_pairs. apply Hfinal.
   - cbn [obind]. apply Hfinal.
 Qed.
+
+(* ---------- las.py: inspect, accept the recommendation, inspect again ------------------------------------
+   the three statements of LASFile.read's data-section loop that end with
+   `if recommended_regexp_subs != regexp_subs and accept_regexp_sub_recommendations:` (py_inspect_twice);
+   file_obj.seek(k) is read as "the file stands at the section's title line again" *)
+Lemma list_sub_eqb_pairs : forall a b,
+  pyo_list_eqb pyo_sub_eqb (List.map sub_pair a) (List.map sub_pair b) = list_rsub_eqb a b.
+Proof.
+  induction a as [|x a IH]; destruct b as [|y b]; try reflexivity.
+  cbn [List.map pyo_list_eqb list_rsub_eqb]. rewrite sub_eqb_pairs, IH. reflexivity.
+Qed.
+
+Theorem inspect_twice_pin : forall (d : dlm) (file : list (list N)) (first last : nat) (title : list N) (subs : list rsub),
+  py_inspect_twice (skipn first file) (Z.of_nat first) (Z.of_nat last) (List.map sub_pair subs) [ch_hash] (split_line d) true
+  = let (n, subs') := inspect_twice d (body_lines file (mkspos first last title)) subs in
+    Some (ncols_Z n, List.map sub_pair subs').
+Proof.
+  intros d file first last title subs. unfold py_inspect_twice, inspect_twice.
+  rewrite (inspect_pin d file first last title subs).
+  destruct (inspect d (body_lines file (mkspos first last title)) subs) as (n, rec) eqn:E1. cbn [obind].
+  rewrite list_sub_eqb_pairs, andb_true_r.
+  destruct (negb (list_rsub_eqb rec subs)); [|reflexivity].
+  rewrite (inspect_pin d file first last title rec).
+  destruct (inspect d (body_lines file (mkspos first last title)) rec) as (n2, rec2). reflexivity.
+Qed.
+
+(* ---------- the read policies: the substitution lists the model starts from ------------------------------
+   defaults.READ_POLICIES and defaults.READ_SUBS (both re-read from defaults.py on every run) give, for the
+   policy names "default" and "comma-delimiter" (the one LASFile.read switches to for DLM COMMA), the lists
+   default_subs and comma_delim_subs of Model/DataRead.v.  policy_subs is get_substitutions' reading of a
+   policy that is a key of READ_POLICIES (`for sub in policy_subs[policy]: if sub in subs: all_subs += subs[sub]`;
+   get_substitutions itself is not translated). *)
+Definition policy_subs (p : list N) : option (list (re * list tpl)) :=
+  option_map (flat_map (fun k => pyo_dict_get py_const_defaults_READ_SUBS k []))
+             (pyo_dict_item py_const_defaults_READ_POLICIES p).
+Theorem read_policy_tables :
+  policy_subs (s2l "default") = Some (List.map sub_pair default_subs) /\
+  policy_subs (s2l "comma-delimiter") = Some (List.map sub_pair comma_delim_subs).
+Proof. split; reflexivity. Qed.
